@@ -146,6 +146,12 @@ fn play_game(stockfish: &mut Stockfish, depth: u8) -> (GameResult, Duration, Dur
     }
 }
 
+/// Verification hook: the Stockfish-bridge move parser, exposed for checking.
+#[cfg(chess_verif)]
+pub fn verif_create_chess_move_from_uci(uci: &str, board: &Board) -> ChessMove {
+    create_chess_move_from_uci(uci, board)
+}
+
 fn create_chess_move_from_uci(uci: &str, board: &Board) -> ChessMove {
     let from = square_string_to_bitboard(&uci[0..2]);
     let to = square_string_to_bitboard(&uci[2..4]);
